@@ -1120,10 +1120,13 @@ impl RawUniverse for CheckPin {
 /// piece (something it might seem able to capture).
 pub struct PinUniverse {
     pub kings: Vec<Sq>,
+    /// also put, on the OPPOSITE side of the king on the same line, a second enemy slider looking at
+    /// the king through exactly one piece (own N or enemy N) at every distance
+    pub far_side: bool,
 }
 impl RawUniverse for PinUniverse {
     fn name(&self) -> String {
-        format!("S-PIN(kings={})", self.kings.len())
+        format!("S-PIN(kings={}{})", self.kings.len(), if self.far_side { ",far side" } else { "" })
     }
     fn bounds(&self) -> Value {
         json!({"mover_king_squares": self.kings, "mover_colours": 2, "pinned": "P N B R Q of the mover at every distance on each of the 8 lines", "pinner": "enemy R|B (by line type) or Q at every distance behind",
@@ -1172,6 +1175,30 @@ impl RawUniverse for PinUniverse {
                                         let mut q = p.clone();
                                         put(&mut q, bs, Kind::N, them);
                                         f(q);
+                                    }
+                                }
+                            }
+                            if self.far_side {
+                                let mut far = Vec::new();
+                                let mut cur = k;
+                                while let Some(n) = refmodel::step(cur, -dir.0, -dir.1) {
+                                    far.push(n);
+                                    cur = n;
+                                }
+                                for (bi, &bsq) in far.iter().enumerate() {
+                                    if p.sq[bsq as usize].is_some() {
+                                        break;
+                                    }
+                                    for &s2 in &far[bi + 1..] {
+                                        if p.sq[s2 as usize].is_some() {
+                                            break;
+                                        }
+                                        for (bk, own) in [(Kind::N, true), (Kind::N, false)] {
+                                            let mut q = p.clone();
+                                            put(&mut q, bsq, bk, if own { c } else { them });
+                                            put(&mut q, s2, sk, them);
+                                            f(q);
+                                        }
                                     }
                                 }
                             }
@@ -1295,6 +1322,119 @@ impl RawUniverse for EpFile {
                         }
                     }
                 }
+            }
+        }
+    }
+}
+
+/// Promotion universe: a pawn of the mover on its seventh rank (every file), the enemy king on every
+/// square of the three ranks in front of it, no or one enemy piece (N B R Q) on each capture square,
+/// and no or one slider of the mover (R B Q) on every square (the pawn's departure may uncover it).
+/// Explored one ply: every promotion and under-promotion, with and without capture.
+pub struct PromoUniverse {
+    pub sliders: Vec<Kind>,
+}
+impl RawUniverse for PromoUniverse {
+    fn name(&self) -> String {
+        format!("S-PROMO(sliders={})", self.sliders.len())
+    }
+    fn bounds(&self) -> Value {
+        json!({"mover_colours": 2, "pawn_files": 8, "enemy_king": "every square of the three ranks nearest the promotion rank", "capture_targets": "none or enemy N B R Q on either capture square",
+               "own_slider": format!("none or one of {:?} on every square", self.sliders), "own_king": "far corner"})
+    }
+    fn parts(&self) -> usize {
+        2 * 8
+    }
+    fn part(&self, i: usize, f: &mut dyn FnMut(Pos)) {
+        let c = Col::ALL[i / 8];
+        let file = (i % 8) as u8;
+        let them = c.other();
+        let pawn = sq(file, c.rel_rank(6));
+        for er in 5..8u8 {
+            for ef in 0..8u8 {
+                let ek = sq(ef, c.rel_rank(er));
+                if ek == pawn {
+                    continue;
+                }
+                let mut base = Pos::empty();
+                base.stm = c;
+                put(&mut base, pawn, Kind::P, c);
+                put(&mut base, ek, Kind::K, them);
+                let ok = [sq(0, c.back_rank()), sq(7, c.back_rank())][if file < 4 { 1 } else { 0 }];
+                put(&mut base, ok, Kind::K, c);
+                let mut targets: Vec<Option<(Sq, Kind)>> = vec![None];
+                for df in [-1i32, 1] {
+                    if let Some(t) = refmodel::step(pawn, df, c.dir()) {
+                        if base.sq[t as usize].is_none() {
+                            for k in [Kind::N, Kind::B, Kind::R, Kind::Q] {
+                                targets.push(Some((t, k)));
+                            }
+                        }
+                    }
+                }
+                for tg in targets {
+                    let mut p1 = base.clone();
+                    if let Some((t, k)) = tg {
+                        put(&mut p1, t, k, them);
+                    }
+                    f(p1.clone());
+                    for &sk in &self.sliders {
+                        for s in 0..64u8 {
+                            if p1.sq[s as usize].is_none() {
+                                let mut p2 = p1.clone();
+                                put(&mut p2, s, sk, c);
+                                f(p2);
+                            }
+                        }
+                    }
+                }
+            }
+        }
+    }
+}
+
+/// Extreme material: one side has its king and n = 1..15 pieces of ONE kind (N, B, R or Q) packed on
+/// its first two ranks behind a wall of eight enemy pawns on its third rank (so that nothing gives
+/// check), the enemy king far away; both sides to move.
+pub struct Material;
+impl RawUniverse for Material {
+    fn name(&self) -> String {
+        "S-MATERIAL".into()
+    }
+    fn bounds(&self) -> Value {
+        json!({"colours": 2, "kinds": "N B R Q", "count": "1..15 pieces of the one kind", "sides": 2})
+    }
+    fn parts(&self) -> usize {
+        2 * 4
+    }
+    fn part(&self, i: usize, f: &mut dyn FnMut(Pos)) {
+        let c = Col::ALL[i / 4];
+        let kind = [Kind::N, Kind::B, Kind::R, Kind::Q][i % 4];
+        let them = c.other();
+        // squares of the first two ranks, the king takes e1 (relative)
+        let ks = sq(4, c.rel_rank(0));
+        let mut slots: Vec<Sq> = Vec::new();
+        for r in [1u8, 0] {
+            for fl in 0..8u8 {
+                let s = sq(fl, c.rel_rank(r));
+                if s != ks {
+                    slots.push(s);
+                }
+            }
+        }
+        for n in 1..=15usize {
+            for stm in Col::ALL {
+                let mut p = Pos::empty();
+                p.stm = stm;
+                put(&mut p, ks, Kind::K, c);
+                put(&mut p, sq(4, them.back_rank()), Kind::K, them);
+                for fl in 0..8u8 {
+                    put(&mut p, sq(fl, c.rel_rank(2)), Kind::P, them);
+                }
+                for &s in slots.iter().take(n) {
+                    put(&mut p, s, kind, c);
+                }
+                f(p);
             }
         }
     }
